@@ -146,6 +146,14 @@ def oracle(case):
             o, src = _open(case, tmp=tmp)
             before = [list(e) for e in o.particle_objects_list()]
             imp_before = list(o.impact_parameters()) if case["kind"] == "oscar" else None
+            # the object has already been asked for its rows and printed once BEFORE the filter history (print - filter - print):
+            # what is written afterwards is the filtered content
+            try:
+                o.particle_list()
+                if o.num_events() != 0:
+                    o.print_particle_lists_to_file(f2)
+            except Exception:
+                pass
             try:
                 o = apply_hist(o, case["hist"])
             except Exception as e:
@@ -171,11 +179,25 @@ def oracle(case):
                 if len(eo) != len(er):
                     return f"event {i}: {len(eo)} particles written, {len(er)} read back"
                 for j, (po, pr) in enumerate(zip(eo, er)):
+                    if len(po) != len(pr):
+                        return f"event {i} particle {j}: the object written holds {len(po)} columns, {len(pr)} are read back"
                     for c, (vo, vr) in enumerate(zip(po, pr)):
                         kind, dg = prec[c] if c < len(prec) else ("i", 0)
                         exp = int(vo) if kind == "i" else rounded(float(vo), dg)
                         if not (vr == exp or (isinstance(exp, float) and math.isnan(exp) and math.isnan(vr))):
                             return f"event {i} particle {j} column {c}: held {vo!r}, read back {vr!r}, expected {exp!r}"
+            # integer columns exactly, read off the Particle objects themselves (independent of the row conversion the writer uses)
+            for i, (eh, eg) in enumerate(zip(held, got)):
+                for j, (ph, pg) in enumerate(zip(eh, eg)):
+                    for attr in ("ID", "pdg", "charge", "ncoll", "proc_id_origin", "proc_type_origin", "pdg_mother1", "pdg_mother2",
+                                 "baryon_number", "strangeness", "status"):
+                        try:
+                            vh, vg = getattr(ph, attr), getattr(pg, attr)
+                        except Exception:
+                            continue
+                        if isinstance(vh, (int, float, np.integer, np.floating)) and not math.isnan(float(vh)):
+                            if math.isnan(float(vg)) or float(vh) != float(vg):
+                                return f"event {i} particle {j}: integer column {attr} holds {vh!r}, read back {vg!r}"
             if r.num_events() != o.num_events():
                 return f"num_events {o.num_events()} written, {r.num_events()} read back"
             co = np.asarray(o.num_output_per_event()); cr = np.asarray(r.num_output_per_event())
